@@ -716,6 +716,17 @@ func runPhase(ph phase, outdir string, tcp bool) (status string, err error) {
 	var prog progress
 	runOne := func(thread, slot, seq int, c command) {
 		defer prog.tick()
+		if c[0] == "@HAMMER" {
+			// a read-only command repeated for some milliseconds, not recorded (leaving reads out
+			// of a history never makes it less linearizable); keeps the key's stripe busy
+			ms, _ := strconv.Atoi(c[1])
+			cmd := toBytes(c[2:])
+			for end := time.Now().Add(time.Duration(ms) * time.Millisecond); time.Now().Before(end); {
+				exec(slot, cmd)
+				prog.tick()
+			}
+			return
+		}
 		if !ph.nolog {
 			memdb.VerifLockMark(seq)
 		}
@@ -851,6 +862,9 @@ func screenPhase(ph phase, outdir string, skip map[string]bool) map[string]strin
 	cfg := setupServer(dir)
 	mgr := server.NewManager(cfg)
 	run := func(c command) {
+		if c[0][0] == '@' {
+			return
+		}
 		name := strings.ToLower(c[0])
 		if skip[name] || bad[name] != "" || name == "blpop" || name == "brpop" {
 			return
@@ -1063,6 +1077,10 @@ func concCmd(args []string) error {
 		genMisc(r, nth, nops),
 		genExpiry(r, nth, nops/2),
 	}
+	// a broken lock obligation names list commands: add the targeted contention phase
+	if hot, ok := genHotList(r, focus); ok {
+		phases = append(phases, hot)
+	}
 	sf, err := os.Create(filepath.Join(outdir, "status.txt"))
 	if err != nil {
 		return err
@@ -1094,7 +1112,7 @@ func concCmd(args []string) error {
 				if skip[name] {
 					continue
 				}
-				if len(focus) > 0 && !focus[name] && !r.chance(1, 3) {
+				if len(focus) > 0 && ph.name != "hotlist" && !focus[name] && !r.chance(1, 3) {
 					continue
 				}
 				kept = append(kept, c)
